@@ -161,7 +161,41 @@ impl Observer for Obs {
             return Ok(());
         }
         let m = members[pick(op[1], members.len())];
-        match pick(op[2], 10) {
+        match pick(op[2], 12) {
+            10 | 11 => {
+                // A message is overtaken by a commit. The receiver writes its state in the new epoch (the old epoch is now a
+                // stored prior epoch), takes the late message, writes again — a write whose only news is the key that the late
+                // message consumed — and is reloaded: the loaded copy must have it consumed too.
+                let others: Vec<usize> = members.iter().copied().filter(|x| *x != m).collect();
+                // (a twin reads a storage copy and is never written: it would keep the epoch record pending where the member has it stored)
+                if others.is_empty() || _notes.proposals > 0 || !_notes.pending_adds.is_empty() || members.iter().any(|x| w.has_twin(*x)) {
+                    return Ok(());
+                }
+                let s = others[pick(op[3], others.len())];
+                w.flush(op[4])?;
+                if members.iter().any(|x| w.parties[*x].g().has_pending_commit() || w.parties[*x].g().commit_required()) {
+                    return Ok(());
+                }
+                w.send_app(s, vec![0x1a; 6], vec![]).map_err(|e| op_failure(P, "encrypt_application_message", &e))?;
+                let held = w.inflight.pop().expect("flight");
+                for o in others.iter().copied().filter(|x| *x != s) {
+                    let r = w.process(o, &held.bytes);
+                    w.check_genuine(o, &held, r)?;
+                }
+                match w.commit_round(s, &CommitSpec::default())? {
+                    Ok(_) => {}
+                    Err(e) => return Err(op_failure(P, "commit", &e)),
+                }
+                self.save(w, m)?;
+                let r = w.process(m, &held.bytes);
+                w.check_genuine(m, &held, r)?;
+                self.save_reload(w, m, "_after_a_late_message_of_a_stored_epoch")?;
+                match w.process(m, &held.bytes) {
+                    Ok(_) => return Err(fail("late_message_accepted_again_after_reload", format!("party {m}: a message of the previous epoch, consumed before the last write, is accepted once more by the loaded copy"))),
+                    Err(e) if e.is_panic() => return Err(panic_failure(P, "process_incoming_message(replay)", &e)),
+                    Err(_) => self.ev.class("late_message_replay_refused_after_reload"),
+                }
+            }
             8 | 9 => {
                 // messages overtake each other: the receiver consumes the last of a burst, is written and reloaded with the
                 // skipped message keys in its ratchet, then gets the earlier ones
@@ -176,7 +210,16 @@ impl Observer for Obs {
                 }
                 // now and then the burst is as long as the receiver may jump ahead (1024 generations) or one short of it: the
                 // oldest skipped key is then as far behind the ratchet as a key can be
-                let n = if op[3] % 8 == 7 { 1024 + (op[4] % 2) as usize } else { 2 + (op[3] % 3) as usize };
+                let n = if op[3] % 32 == 15 {
+                    2049
+                } else if op[3] % 8 == 7 {
+                    1024 + (op[4] % 2) as usize
+                } else {
+                    2 + (op[3] % 3) as usize
+                };
+                if n > 2040 {
+                    self.ev.class("bursts_of_two_look_ahead_windows");
+                }
                 if n > 1000 {
                     self.ev.class("bursts_as_long_as_the_look_ahead_window");
                 }
@@ -186,10 +229,19 @@ impl Observer for Obs {
                     fl.push(w.inflight.pop().expect("flight"));
                 }
                 let last = fl.len() - 1;
+                if n > 2040 {
+                    // two jumps of the full window: more skipped keys than one window holds
+                    let mid = last / 2;
+                    let r = w.process(m, &fl[mid].bytes);
+                    w.check_genuine(m, &fl[mid], r)?;
+                }
                 let r = w.process(m, &fl[last].bytes);
                 w.check_genuine(m, &fl[last], r)?;
                 self.save_reload(w, m, "_with_skipped_message_keys")?;
-                for f in &fl[..last] {
+                for (i, f) in fl[..last].iter().enumerate() {
+                    if n > 2040 && i == last / 2 {
+                        continue;
+                    }
                     let r = w.process(m, &f.bytes);
                     w.check_genuine(m, f, r)?;
                 }
@@ -299,7 +351,7 @@ pub fn run(ctx: &Ctx) -> ! {
          loaded from a copy of the storage and fed the same incoming messages as long as the member only receives). Oracles: (1) loaded state == state at the moment of the last write under \
          canonical equality, incl. pending commit, cached and own proposals, pending updates; (2) the reloaded member goes on in the history (agreement, cross-decryption, applying its restored \
          pending commit); (3) member and twin stay canonically equal after every delivery; (4) the tee store compares every state/epoch/max_epoch_id answer and, after every write, the full set of \
-         retrievable epochs of both shipped providers. Bursts as long as the 1024-generation look-ahead window precede some reloads; on a deep copy of a SQLite store, a write with an already stored epoch record fails and must leave snapshot and records as they were. Crash points are at API-call granularity. Non-trivial = reload with pending commit / cached proposals / pending update, or crash check with lost epochs.",
+         retrievable epochs of both shipped providers. Bursts as long as the 1024-generation look-ahead window precede some reloads; on a deep copy of a SQLite store, a write with an already stored epoch record fails and must leave snapshot and records as they were. A message overtaken by a commit is taken after the receiver wrote in the new epoch; the receiver writes again, is reloaded and must refuse the replay; some bursts span two look-ahead windows (two jumps, 2049 messages). Crash points are at API-call granularity. Non-trivial = reload with pending commit / cached proposals / pending update, or crash check with lost epochs.",
         &hp,
         spec,
         &|case, ev| Obs { ev, rng: SplitMix::new(((case.c(7) as u64) << 16) | case.c(8) as u64, 6), saved: BTreeMap::new(), reloads: 0, crash_checks: 0 },
